@@ -74,9 +74,10 @@ def gczMem {β : Type} (zero : β → β) (m : Mem β) (src : Nat) (ts : List In
     let (m1, id) := m.alloc res
     some (m1.maskedZeroAt zero id ts, id)
 
-/-- the mutant: `results = arr[0:len(ts)]` is a view, the write goes through to `arr` -/
+/-- the mutant: `results = arr[0:len(ts)]` is a view, the masked write goes through to `arr` -/
 def gczMemView {β : Type} (zero : β → β) (m : Mem β) (src : Nat) (ts : List Int) : Mem β × Nat :=
-  (m.maskedZeroAt zero src ts, src)
+  let buf := m.read src
+  ({ bufs := m.bufs.set src (maskedZero zero (buf.take ts.length) ts ++ buf.drop ts.length) }, src)
 
 /-! ### numeric helpers -/
 
